@@ -7,7 +7,8 @@ from . import c08, c09, c11
 ID = "C04"
 THEOREMS = ["C04_invariant_initial", "C04_every_command", "C04_every_command_stream", "C04_every_received_frame", "C04_window_end",
             "C04_send_panics_only_on_api_misuse", "C04_send_keeps_invariant", "C04_join_request_never_panics", "C04_selection_never_panics",
-            "C04_async_send_never_panics_on_radio_input"]
+            "C04_async_send_never_panics_on_radio_input", "C04_async_join_never_panics", "C04_async_listen_never_panics",
+            "C04_nb_event_never_panics"]
 COVER = lambda r: c09.cover(r, 24)
 
 
